@@ -217,7 +217,7 @@ class Rendered:
             self.jac_text = self.files[f"src/naunet_jac.{ext}"]
         else:
             self.fex_text = self.jac_text = self.files["src/naunet_ode.cpp"]
-        self.rates_text = self.files.get(f"src/naunet_rates.{ext}", self.files.get("src/naunet_rates.cpp", ""))
+        self.rates_text = self.files.get(f"src/naunet_rates.{ext}", self.files.get("src/naunet_rates.cpp", self.files.get("src/naunet_ode.cpp", "")))
 
     # ydot statements: [(index expr text, rhs text)]
     def fex_statements(self):
@@ -364,6 +364,28 @@ def check_network(label, net, tier, seed, want):
                 V("C01", f"IDX-macro: IDX_{sp.alias} is {v}, species position {i}", backend=bname)
         if mac.get("__redefined__") and "C01" in want:
             V("C01", f"IDX-redefined: {mac['__redefined__']}", backend=bname)
+        # ---- rate overrides (C13): k[i] of a reaction carrying a modified index is the user's text, every other k[i] the reaction's own rate
+        if "C13" in want and (net.rate_modifier or {}):
+            norm = lambda t: re.sub(r"\s+", "", t)
+            body = strip_comments(R.rates_text)
+            last = {}
+            for i, rhs in statements(body, r"\bk\[(\d+)\]"):
+                last[int(i)] = rhs
+            for i, reac in enumerate(R.reactions):
+                if i not in last:
+                    V("C13", f"rate-statement-missing: no assignment to k[{i}] in EvalRates", backend=bname)
+                    continue
+                key = reac.idxfromfile
+                if key in net.rate_modifier:
+                    if norm(last[i]) != norm(str(net.rate_modifier[key])):
+                        V("C13", f"rate-override-not-applied: reaction {i} carries index {key} (modifier {net.rate_modifier[key]!r}) but k[{i}] = {last[i].strip()[:80]!r}", backend=bname)
+                else:
+                    try:
+                        own = reac.rateexpr(net.grains[0] if getattr(net, "grains", None) else None)
+                    except Exception:
+                        continue
+                    if norm(last[i]) != norm(own):
+                        V("C13", f"rate-of-untargeted-reaction-changed: reaction {i} (index {key}) k[{i}] = {last[i].strip()[:80]!r}, own rate {own[:80]!r}", backend=bname)
         # ---- right-hand side
         try:
             fst = R.fex_statements()
